@@ -616,5 +616,10 @@ func runEvmCase(c EvmCase, x *h.Ctx) {
 
 func TestEvm(t *testing.T) {
 	defer closeSharedApps()
+	// opened here, not inside the first case: rapid stops a run early when the time left is less
+	// than five average iterations, and opening the databases dominates a first iteration
+	if err := openSharedApps(); err != nil {
+		t.Fatalf("harness: %v", err)
+	}
 	h.Check(t, h.Spec[EvmCase]{Prop: "C14", Leg: "evm", Gen: genEvmCase, Run: runEvmCase})
 }
